@@ -434,12 +434,15 @@ impl RealLiteral {
             return Err("Non-real characters");
         }
         let r: String = r.into_iter().collect();
-        f64::from_str(r.as_str())
-            .map(|value| RealLiteral {
-                value,
-                data_type: tn,
-            })
-            .map_err(|e| "real")
+        let value = f64::from_str(r.as_str()).map_err(|e| "real")?;
+        // A literal beyond the largest finite value must be rejected, not read as infinity
+        if !value.is_finite() {
+            return Err("real out of range");
+        }
+        Ok(RealLiteral {
+            value,
+            data_type: tn,
+        })
     }
 }
 
